@@ -579,9 +579,9 @@ Section NoSilent.
 End NoSilent.
 
 (* ------------------------------------------------------------------ one invocation, code as it is *)
-(* cfgd d: both halt-flag repairs and the push repair; d says whether start() empties the stack *)
+(* cfgd d: the halt-flag, push, Run-position and module-table repairs; d says whether start() empties the stack *)
 Definition vm_ok (v : vm) : Prop :=
-  running v = false /\ H v <= MaxStack /\ FP v = 0 /\ (startCount v = 0 -> H v = 0).
+  running v = false /\ H v <= MaxStack /\ FP v = 0 /\ (startCount v = 0 -> H v = 0) /\ mods v = true.
 
 Lemma vm_ok_new d e : vm_ok (fst (new_vm (cfgd d) e)).
 Proof. cbn. unfold vm_ok. cbn. repeat split; auto. apply Nat.le_0_l. Qed.
@@ -623,29 +623,23 @@ Definition base_h (d : bool) (v : vm) (i : inv) : nat :=
 Definition base_f (v : vm) (i : inv) : nat := match iapi i with ACall => FP v | _ => 0 end.
 
 Lemma run_inv_eq d e g v i :
-  running v = false -> (iapi i = ARun -> ipok v = true) ->
+  running v = false -> mods v = true ->
   run_inv (cfgd d) e g v i =
   let '(r, s1) := body_run d e i (start_st e g (base_h d v i) (base_f v i) i) in
   (outcome_of r, sE s1, sG s1,
    mkVm (Some (ncells e)) (match r with RDiverge => true | _ => false end) (S (startCount v)) (sH s1) (sFP s1)
-        (match iapi i with ARunCode => false | _ => ipok v end)).
+        (match iapi i with ARunCode => false | _ => ipok v end) true).
 Proof.
-  intros R K. unfold run_inv, start. rewrite R.
+  intros R M. unfold run_inv, start. rewrite R.
   unfold body_run, start_st, base_h, base_f, env1.
-  destruct d; destruct (iapi i) eqn:EA; try rewrite (K eq_refl); cbn -[eval call_fn Nat.ltb];
-    try (destruct (ipok v); cbn -[eval call_fn Nat.ltb]);
+  destruct d; destruct (iapi i) eqn:EA; cbn -[eval call_fn Nat.ltb]; rewrite ?orb_true_r;
+    cbn -[eval call_fn Nat.ltb];
     try (destruct (1 <? S (startCount v)); cbn -[eval call_fn]);
+    rewrite ?M, ?andb_false_r; cbn -[eval call_fn];
     try (match goal with |- context [eval ?a ?b ?c ?d ?s] => destruct (eval a b c d s) as [r s1] end;
          destruct r; reflexivity);
     try (match goal with |- context [call_fn ?a ?b ?c ?s] => destruct (call_fn a b c s) as [r s1] end;
          destruct r; reflexivity).
-Qed.
-
-Lemma run_inv_wild d e g v i :
-  running v = false -> iapi i = ARun -> ipok v = false ->
-  run_inv (cfgd d) e g v i = (OWild, env1 e (ictx i), g, mkVm (Some (ncells e)) false (S (startCount v)) 0 0 false).
-Proof.
-  intros R A K. unfold run_inv, start. rewrite R. destruct d; cbn; rewrite A, K; reflexivity.
 Qed.
 
 Lemma body_run_good d e i s0 :
@@ -680,7 +674,7 @@ Proof.
 Qed.
 
 Definition fresh_of (d : bool) (e : env) (g : Z) (i : inv) : outcome :=
-  let '(o0, _, _, _) := run_inv (cfgd d) e g (mkVm None false 0 0 0 true) i in o0.
+  let '(o0, _, _, _) := run_inv (cfgd d) e g (mkVm None false 0 0 0 true true) i in o0.
 Lemma fresh_outcome_of d e g v i o : fresh_outcome (cfgd d) (mkObs e g v i o) = fresh_of d e g i.
 Proof. reflexivity. Qed.
 
@@ -688,156 +682,102 @@ Proof. reflexivity. Qed.
 Lemma run_inv_cfgd d e g v i :
   vm_ok v -> env_ok e ->
   let '(o, e', g', v') := run_inv (cfgd d) e g v i in
-  (o = fresh_of d e g i \/ (d = false /\ o = OErr EStack /\ iapi i <> ARunCode) \/
-   (o = OWild /\ iapi i = ARun /\ ipok v = false)) /\
-  o <> OStale /\ o <> OBusy /\ env_ok e' /\ (o <> ODiverge -> vm_ok v') /\
-  (ipok v' = false -> ipok v = false \/ iapi i = ARunCode).
+  (o = fresh_of d e g i \/ (d = false /\ o = OErr EStack /\ iapi i <> ARunCode)) /\
+  o <> OStale /\ o <> OBusy /\ o <> OWild /\ env_ok e' /\ (o <> ODiverge -> vm_ok v').
 Proof.
-  intros (V1 & V2 & V3 & V4) EO.
-  destruct (iapi i) eqn:EAPI0; try (destruct (ipok v) eqn:EOK);
-  try (rewrite (run_inv_wild d e g v i V1 EAPI0 EOK);
-       split; [right; right; auto|]; split; [discriminate|]; split; [discriminate|];
-       split; [apply (env1_run_ok e (ictx i) EO)|]; split; [|auto];
-       intros _; unfold vm_ok; cbn; repeat split; auto; try apply Nat.le_0_l; discriminate).
-  all: assert (KK : iapi i = ARun -> ipok v = true) by (intros X; congruence).
-  all: unfold fresh_of; change (mkVm None false 0 0 0 true) with (fst (new_vm (cfgd d) e));
-    rewrite (run_inv_eq d e g v i V1 KK); rewrite run_inv_eq by (auto; reflexivity).
-  all: set (s_sh := start_st e g (base_h d v i) (base_f v i) i);
-    set (s_fr := start_st e g (base_h d (fst (new_vm (cfgd d) e)) i) (base_f (fst (new_vm (cfgd d) e)) i) i).
-  all: assert (Hsh : sH s_sh <= MaxStack) by
-    (unfold s_sh, base_h; cbn -[Nat.ltb]; destruct d; [apply Nat.le_0_l|];
-     rewrite EAPI0; auto; destruct (1 <? S (startCount v)); auto; apply Nat.le_0_l).
-  all: assert (R : rel (sH s_sh) s_sh s_fr) by
-    (unfold s_sh, s_fr, start_st, base_f; cbn; repeat split; auto;
-     [rewrite EAPI0; auto
-     |unfold base_h; destruct d; cbn -[Nat.ltb]; [reflexivity|]; rewrite EAPI0; cbn -[Nat.ltb]; try reflexivity]).
-  all: pose proof (body_run_shift d e i _ _ _ R Hsh) as SH; unfold shifted in SH;
-    pose proof (body_run_good d e i s_sh Hsh) as (G1 & G2);
-    pose proof (body_run_nsil d e i s_sh (env1_run_ok e (ictx i) EO)) as (N1 & N2).
-  all: assert (Hzero : d = true \/ iapi i = ARunCode -> s_sh = s_fr) by
-    (intros X; unfold s_sh, s_fr, base_h, base_f; destruct d;
-     [cbn; rewrite V3; rewrite EAPI0; reflexivity
-     |destruct X as [X|X]; [discriminate|]; rewrite X; cbn -[Nat.ltb];
-      destruct (startCount v) eqn:SC; cbn; auto; rewrite V4; auto]).
-  all: destruct (body_run d e i s_sh) as [r s1] eqn:E1; destruct (body_run d e i s_fr) as [r0 s1'] eqn:E2;
-    cbn [fst snd] in *.
-  all: (split; [|split; [|split; [|split; [|split]]]]);
-    [ destruct d; [left; rewrite Hzero in E1 by auto; congruence|];
-      first [ left; rewrite Hzero in E1 by (right; congruence); congruence
-            | destruct SH as [SH|[SH _]]; [right; left; subst; repeat split; [congruence]|left; congruence] ]
-    | destruct r; cbn; congruence
-    | destruct r; cbn; congruence
-    | apply N2
-    | intros D; assert (D' : r <> RDiverge) by (destruct r; cbn in D; congruence);
-      unfold vm_ok; cbn; repeat split;
-      [ destruct r; congruence | auto | rewrite G2 by auto; unfold s_sh, base_f; cbn; rewrite EAPI0; auto | discriminate ]
-    | cbn; rewrite EAPI0; intros X; try (left; congruence); try (right; reflexivity) ].
+  intros (V1 & V2 & V3 & V4 & V5) EO.
+  unfold fresh_of. change (mkVm None false 0 0 0 true true) with (fst (new_vm (cfgd d) e)).
+  rewrite (run_inv_eq d e g v i V1 V5). rewrite run_inv_eq by reflexivity.
+  set (s_sh := start_st e g (base_h d v i) (base_f v i) i).
+  set (s_fr := start_st e g (base_h d (fst (new_vm (cfgd d) e)) i) (base_f (fst (new_vm (cfgd d) e)) i) i).
+  assert (Hsh : sH s_sh <= MaxStack).
+  { unfold s_sh, base_h. cbn -[Nat.ltb]. destruct d; [apply Nat.le_0_l|].
+    destruct (iapi i); auto. destruct (1 <? S (startCount v)); auto. apply Nat.le_0_l. }
+  assert (R : rel (sH s_sh) s_sh s_fr).
+  { unfold s_sh, s_fr, start_st, base_f. cbn. repeat split; auto.
+    - destruct (iapi i); auto.
+    - unfold base_h. destruct d; cbn -[Nat.ltb]; [reflexivity|]. destruct (iapi i); cbn -[Nat.ltb]; try reflexivity. }
+  pose proof (body_run_shift d e i _ _ _ R Hsh) as SH. unfold shifted in SH.
+  pose proof (body_run_good d e i s_sh Hsh) as (G1 & G2).
+  pose proof (body_run_nsil d e i s_sh (env1_run_ok e (ictx i) EO)) as (N1 & N2).
+  assert (Hzero : d = true \/ iapi i = ARunCode -> s_sh = s_fr).
+  { intros X. unfold s_sh, s_fr, base_h, base_f. destruct d.
+    - cbn. rewrite V3. destruct (iapi i); reflexivity.
+    - destruct X as [X|X]; [discriminate|]. rewrite X. cbn -[Nat.ltb].
+      destruct (startCount v) eqn:SC; cbn; auto. rewrite V4; auto. }
+  destruct (body_run d e i s_sh) as [r s1] eqn:E1. destruct (body_run d e i s_fr) as [r0 s1'] eqn:E2.
+  cbn [fst snd] in *.
+  split; [|split; [|split; [|split; [|split]]]].
+  - destruct d; [left; rewrite Hzero in E1 by auto; congruence|].
+    destruct (iapi i) eqn:EA.
+    + left. rewrite Hzero in E1 by auto. congruence.
+    + destruct SH as [SH|[SH _]]; [right; subst; repeat split; [discriminate]|left; congruence].
+    + destruct SH as [SH|[SH _]]; [right; subst; repeat split; [discriminate]|left; congruence].
+  - destruct r; cbn; congruence.
+  - destruct r; cbn; congruence.
+  - destruct r; cbn; congruence.
+  - apply N2.
+  - intros D. assert (D' : r <> RDiverge) by (destruct r; cbn in D; congruence).
+    unfold vm_ok. cbn. repeat split.
+    + destruct r; congruence.
+    + auto.
+    + rewrite G2 by auto. unfold s_sh, base_f. cbn. destruct (iapi i); auto.
+    + discriminate.
 Qed.
 
 (* ------------------------------------------------------------------ histories *)
-(* no RunCode so far, seen from the instruction pointer *)
-Definition inv_is_runcode (it : item) : bool :=
-  match it with IInv i => match iapi i with ARunCode => true | _ => false end | IEnv _ => false end.
-Definition inv_is_run (it : item) : bool :=
-  match it with IInv i => match iapi i with ARun => true | _ => false end | IEnv _ => false end.
-
 Definition verdict (d : bool) (b : obs) : Prop :=
   o_out b = fresh_outcome (cfgd d) b \/
-  (d = false /\ o_out b = OErr EStack /\ iapi (o_inv b) <> ARunCode) \/
-  (o_out b = OWild /\ iapi (o_inv b) = ARun /\ ipok (o_vm b) = false).
+  (d = false /\ o_out b = OErr EStack /\ iapi (o_inv b) <> ARunCode).
 
 Lemma exec_cfgd d h : forall e g v b,
   vm_ok v -> env_ok e -> In b (exec (cfgd d) e g v h) ->
-  verdict d b /\ o_out b <> OStale /\ o_out b <> OBusy /\ vm_ok (o_vm b) /\ env_ok (o_env b) /\
-  (ipok v = true -> existsb inv_is_runcode h = false -> ipok (o_vm b) = true).
+  verdict d b /\ o_out b <> OStale /\ o_out b <> OBusy /\ o_out b <> OWild /\ vm_ok (o_vm b) /\ env_ok (o_env b).
 Proof.
   induction h as [|it h IH]; intros e g v b V E I; [destruct I|].
   destruct it as [x|i]; cbn [exec] in I.
-  - destruct (IH (do_ev x e) g v b V (do_ev_ok x e E) I) as (A1 & A2 & A3 & A4 & A5 & A6).
-    refine (conj A1 (conj A2 (conj A3 (conj A4 (conj A5 _))))). intros K N. apply A6; auto.
+  - exact (IH (do_ev x e) g v b V (do_ev_ok x e E) I).
   - pose proof (run_inv_cfgd d e g v i V E) as P.
     destruct (run_inv (cfgd d) e g v i) as [[[o e'] g'] v'] eqn:ER.
     destruct P as (P1 & P2 & P3 & P4 & P5 & P6).
     destruct I as [I|I].
     + subst b. unfold verdict. rewrite fresh_outcome_of. cbn [o_out o_inv o_vm o_env].
-      refine (conj P1 (conj P2 (conj P3 (conj V (conj E _))))). auto.
+      exact (conj P1 (conj P2 (conj P3 (conj P4 (conj V E))))).
     + assert (X : o <> ODiverge) by (intros ->; destruct I).
       assert (I' : In b (exec (cfgd d) e' g' v' h)) by (destruct o; auto; congruence).
-      destruct (IH e' g' v' b (P5 X) P4 I') as (A1 & A2 & A3 & A4 & A5 & A6).
-      refine (conj A1 (conj A2 (conj A3 (conj A4 (conj A5 _))))). intros K N. cbn [existsb inv_is_runcode] in N. apply orb_false_iff in N. destruct N as [N1 N2].
-      apply A6; auto. destruct (ipok v') eqn:EK; auto. destruct (P6 eq_refl) as [Q|Q]; [congruence|].
-      rewrite Q in N1. discriminate.
+      exact (IH e' g' v' b (P6 X) P5 I').
 Qed.
 
 Lemma exec0_cfgd d g h b :
   In b (exec0 (cfgd d) g h) ->
-  verdict d b /\ o_out b <> OStale /\ o_out b <> OBusy /\ vm_ok (o_vm b) /\ env_ok (o_env b) /\
-  (existsb inv_is_runcode h = false -> ipok (o_vm b) = true).
+  verdict d b /\ o_out b <> OStale /\ o_out b <> OBusy /\ o_out b <> OWild /\ vm_ok (o_vm b) /\ env_ok (o_env b).
 Proof.
   intros I. unfold exec0 in I. cbn [new_vm per_run_flag cfgd] in I.
-  eapply exec_cfgd in I; [|apply (vm_ok_new d env0) | apply env_ok_0].
-  destruct I as (A1 & A2 & A3 & A4 & A5 & A6). refine (conj A1 (conj A2 (conj A3 (conj A4 (conj A5 _))))). auto.
+  eapply exec_cfgd in I; [exact I| apply (vm_ok_new d env0) | apply env_ok_0].
 Qed.
 
-(* the code as it is: every invocation of every history gives what a new VM gives, except a Run that has to
-   resume the main code at an instruction pointer a RunCode left behind *)
+(* the code as it is: every invocation of every history of RunCode, Run and Call gives what a new VM gives *)
 Theorem independent_current g h b :
-  In b (exec0 cfg_current g h) ->
-  o_out b = fresh_outcome cfg_current b \/
-  (o_out b = OWild /\ iapi (o_inv b) = ARun /\ ipok (o_vm b) = false).
+  In b (exec0 cfg_current g h) -> o_out b = fresh_outcome cfg_current b.
 Proof.
-  intros I. destruct (exec0_cfgd true g h b I) as ([X|[[X _]|X]] & _); auto. discriminate.
+  intros I. destruct (exec0_cfgd true g h b I) as ([X|[X _]] & _); [exact X|discriminate].
 Qed.
 
-Theorem guarded_current g h b :
-  In b (exec0 cfg_current g h) -> (iapi (o_inv b) <> ARun \/ ipok (o_vm b) = true) ->
-  o_out b = fresh_outcome cfg_current b.
-Proof.
-  intros I G. destruct (independent_current g h b I) as [X|(X1 & X2 & X3)]; auto.
-  destruct G; congruence.
-Qed.
+Theorem no_silent_halt g h b :
+  In b (exec0 cfg_current g h) -> o_out b <> OStale /\ o_out b <> OBusy /\ o_out b <> OWild.
+Proof. intros I. destruct (exec0_cfgd true g h b I) as (_ & A & B & C & _). auto. Qed.
 
-(* embedding protocol: RunCode and Call only *)
-Theorem independent_without_run g h b :
-  existsb inv_is_run h = false -> In b (exec0 cfg_current g h) -> o_out b = fresh_outcome cfg_current b.
-Proof.
-  intros N I. apply (guarded_current g h b I). left. intros A.
-  assert (X : forall cfg e g v h b, In b (exec cfg e g v h) -> In (IInv (o_inv b)) h).
-  { clear. intros cfg e g v h. revert e g v. induction h as [|it h IH]; intros e g v b I; [destruct I|].
-    destruct it as [x|i]; cbn [exec] in I.
-    - right. eapply IH; eauto.
-    - destruct (run_inv cfg e g v i) as [[[o e'] g'] v']. destruct I as [I|I].
-      + subst b. left. reflexivity.
-      + right. destruct o; try (eapply IH; eauto; fail); destruct I. }
-  unfold exec0 in I. cbn [new_vm per_run_flag cfg_current cfgd] in I. apply X in I.
-  assert (Y : existsb inv_is_run h = true).
-  { apply existsb_exists. exists (IInv (o_inv b)). split; auto. cbn. rewrite A. reflexivity. }
-  congruence.
-Qed.
-
-(* REPL protocol: Run and Call only *)
-Theorem independent_without_runcode g h b :
-  existsb inv_is_runcode h = false -> In b (exec0 cfg_current g h) -> o_out b = fresh_outcome cfg_current b.
-Proof.
-  intros N I. apply (guarded_current g h b I). right.
-  destruct (exec0_cfgd true g h b I) as (_ & _ & _ & _ & _ & K). auto.
-Qed.
-
-Theorem no_silent_halt g h b : In b (exec0 cfg_current g h) -> o_out b <> OStale /\ o_out b <> OBusy.
-Proof. intros I. destruct (exec0_cfgd true g h b I) as (_ & A & B & _). auto. Qed.
-
-(* the state every invocation starts from: not running, frame 0, stack within bounds -
-   resumeFrame / resetForNewCode / stop() have put (running, fp, sp) back, whatever happened before *)
+(* the state every invocation starts from: not running, frame 0, stack within bounds, module table in place -
+   resumeFrame / resetForNewCode / stop() have put it back, whatever happened before *)
 Theorem restored_between_runs g h b : In b (exec0 cfg_current g h) -> vm_ok (o_vm b).
-Proof. intros I. destruct (exec0_cfgd true g h b I) as (_ & _ & _ & A & _). auto. Qed.
+Proof. intros I. destruct (exec0_cfgd true g h b I) as (_ & _ & _ & _ & A & _). auto. Qed.
 
-(* before c13bc4b (start() kept the stack): independent, or the stack is exhausted (Call / Run only) *)
+(* without c13bc4b (start() kept the stack): independent, or the stack is exhausted (Call / Run only) *)
 Theorem independent_nodrop g h b :
   In b (exec0 cfg_nodrop g h) ->
-  o_out b = fresh_outcome cfg_nodrop b \/ (o_out b = OErr EStack /\ iapi (o_inv b) <> ARunCode) \/
-  (o_out b = OWild /\ iapi (o_inv b) = ARun /\ ipok (o_vm b) = false).
+  o_out b = fresh_outcome cfg_nodrop b \/ (o_out b = OErr EStack /\ iapi (o_inv b) <> ARunCode).
 Proof.
-  intros I. destruct (exec0_cfgd false g h b I) as ([X|[(_ & X)|X]] & _); auto.
+  intros I. destruct (exec0_cfgd false g h b I) as ([X|(_ & X)] & _); auto.
 Qed.
 
 (* ------------------------------------------------------------------ events of other contexts do not matter *)
@@ -1004,11 +944,11 @@ Definition own_gates (e : env) (i : inv) : list (list VmRun.ev) :=
 
 Theorem foreign_events_irrelevant d e g i :
   env_ok e ->
-  fresh_of d e g i = fresh_of d e g (mkInv (iapi i) (ibody i) (ictx i) (own_gates e i)).
+  fresh_of d e g i = fresh_of d e g (mkInv (iapi i) (ibody i) (ictx i) (own_gates e i) (iimport i)).
 Proof.
   intros [EO1 EO2]. unfold fresh_of.
-  rewrite (run_inv_eq d e g (mkVm None false 0 0 0 true) i eq_refl (fun _ => eq_refl)).
-  rewrite (run_inv_eq d e g (mkVm None false 0 0 0 true) (mkInv (iapi i) (ibody i) (ictx i) (own_gates e i)) eq_refl (fun _ => eq_refl)).
+  rewrite (run_inv_eq d e g (mkVm None false 0 0 0 true true) i eq_refl eq_refl).
+  rewrite (run_inv_eq d e g (mkVm None false 0 0 0 true true) (mkInv (iapi i) (ibody i) (ictx i) (own_gates e i) (iimport i)) eq_refl eq_refl).
   set (s1 := start_st e g _ _ i). set (s2 := start_st e g _ _ _).
   assert (R : srel (ncells e) (ictx i) (length (watchers e)) s1 s2).
   { unfold s1, s2, start_st, base_h, base_f. unfold srel, erel, env1, arm.
@@ -1023,7 +963,7 @@ Proof.
     - assert (L2 : v < length (watchers e ++ [(ictx i, ncells e)])) by (apply nth_error_Some; congruence).
       rewrite app_length in L2. cbn in L2. lia. }
   assert (S : same (ncells e) (ictx i) (length (watchers e)) (body_run d e i s1)
-                   (body_run d e (mkInv (iapi i) (ibody i) (ictx i) (own_gates e i)) s2)).
+                   (body_run d e (mkInv (iapi i) (ibody i) (ictx i) (own_gates e i) (iimport i)) s2)).
   { unfold body_run. cbn [iapi ibody ictx]. destruct (iapi i).
     - apply eval_same; auto. - apply eval_same; auto.
     - apply call_fn_same; auto. intros t1 t2 T. apply eval_same; auto. }
